@@ -140,7 +140,7 @@ MUTANTS = {
     },
     "c02_log_every_yield": {
         "props": ["C02"],
-        "edits": [(TR, "                trace.add_yield_type(typ)\n", "                trace.add_yield_type(typ)\n                self.logger.log(trace)\n")],
+        "edits": [(TR, "                trace.add_yield_type(\n                    get_type(arg, max_typed_dict_size=self.max_typed_dict_size)\n                )\n", "                trace.add_yield_type(\n                    get_type(arg, max_typed_dict_size=self.max_typed_dict_size)\n                )\n                self.logger.log(trace)\n")],
     },
     "c02_last_yield_only": {
         "props": ["C02"],
@@ -148,11 +148,11 @@ MUTANTS = {
     },
     "c02_cache_by_name": {
         "props": ["C02"],
-        "edits": [(TR, "        if code not in self.cache:\n            self.cache[code] = get_func(frame)\n        return self.cache[code]", "        if code.co_name not in self.cache:\n            self.cache[code.co_name] = get_func(frame)\n        return self.cache[code.co_name]")],
+        "edits": [(TR, "        key = (code.co_filename, code)\n", "        key = (code.co_filename, code.co_name)\n")],
     },
     "c02_return_on_exception": {
         "props": ["C02"],
-        "edits": [(TR, "            if last_opcode in RETURN_OPCODES:\n                trace.return_type = typ", "            trace.return_type = typ")],
+        "edits": [(TR, "            if last_opcode in RETURN_OPCODES:\n                trace.return_type = get_type(", "            if True:\n                trace.return_type = get_type(")],
     },
     "c02_no_delete": {
         "props": ["C02"],
@@ -160,7 +160,7 @@ MUTANTS = {
     },
     "c02_await_regress": {
         "props": ["C02"],
-        "edits": [(TR, "            if not frame.f_code.co_flags & inspect.CO_COROUTINE:\n                trace.add_yield_type(typ)", "            trace.add_yield_type(typ)")],
+        "edits": [(TR, "            if not frame.f_code.co_flags & inspect.CO_COROUTINE:\n", "            if True:\n")],
     },
     "c02_return_const_regress": {
         "props": ["C02"],
@@ -168,7 +168,7 @@ MUTANTS = {
     },
     "c02_locals_at_return": {
         "props": ["C02"],
-        "edits": [(TR, "            del self.traces[frame]\n", "            del self.traces[frame]\n            for name in list(trace.arg_types):\n                if name in frame.f_locals and frame.f_code.co_flags & inspect.CO_GENERATOR:\n                    trace.arg_types[name] = get_type(frame.f_locals[name], max_typed_dict_size=self.max_typed_dict_size)\n")],
+        "edits": [(TR, "            self.logger.log(trace)\n", "            for name in list(trace.arg_types):\n                if name in frame.f_locals and frame.f_code.co_flags & inspect.CO_GENERATOR:\n                    trace.arg_types[name] = get_type(frame.f_locals[name], max_typed_dict_size=self.max_typed_dict_size)\n            self.logger.log(trace)\n")],
     },
     "c02_skip_property_setter_check": {
         "props": ["C02"],
@@ -269,7 +269,7 @@ MUTANTS = {
     },
     "c03_repr_in_log": {
         "props": ["C03"],
-        "edits": [(TR, "        typ = get_type(arg, max_typed_dict_size=self.max_typed_dict_size)\n        last_opcode", "        typ = get_type(arg, max_typed_dict_size=self.max_typed_dict_size)\n        logger.debug(\"returned %r\", arg) if arg else None\n        last_opcode")],
+        "edits": [(TR, "        last_opcode = frame.f_code.co_code[frame.f_lasti]\n        trace = self.traces.get(frame)", "        logger.debug(\"returned %r\", arg) if arg else None\n        last_opcode = frame.f_code.co_code[frame.f_lasti]\n        trace = self.traces.get(frame)")],
     },
     "c11_import_full_qualname": {
         "props": ["C11"],
@@ -365,7 +365,7 @@ MUTANTS = {
     },
     "c01_first_trace_only": {
         "props": ["C01"],
-        "edits": [(ST, "    for t in traces:\n        for arg, typ in t.arg_types.items():\n            arg_types[arg].add(typ)", "    for t in list(traces)[:3]:\n        for arg, typ in t.arg_types.items():\n            arg_types[arg].add(typ)")],
+        "edits": [(ST, "    for t in traces:\n        for arg, typ in t.arg_types.items():", "    for t in list(traces)[:3]:\n        for arg, typ in t.arg_types.items():")],
     },
     "c01_mixed_first_member": {
         "props": ["C01", "C04"],
@@ -385,7 +385,7 @@ MUTANTS = {
     },
     "c01_return_type_of_first_only": {
         "props": ["C01"],
-        "edits": [(ST, "        if t.return_type is not None:\n            return_types.add(t.return_type)", "        if t.return_type is not None and not return_types:\n            return_types.add(t.return_type)")],
+        "edits": [(ST, "        if t.return_type is not None:\n            return_types.add(limit.rewrite(t.return_type))", "        if t.return_type is not None and not return_types:\n            return_types.add(limit.rewrite(t.return_type))")],
     },
     "c01_limit_low": {
         "props": ["C01"],
